@@ -60,6 +60,8 @@ func buildTypeTag(t tdesc, key string) reflect.Type {
 		return reflect.ArrayOf(t.N, buildTypeTag(*t.E, key))
 	case "map":
 		return reflect.MapOf(reflect.TypeOf(""), buildTypeTag(*t.E, key))
+	case "nkmap": // a map keyed by a NAMED string type (Gen_Targets)
+		return reflect.MapOf(packPrims["nstr"], buildTypeTag(*t.E, key))
 	case "struct":
 		fs := make([]reflect.StructField, len(t.F))
 		for i, f := range t.F {
